@@ -551,6 +551,49 @@ Definition cell_ret (p : Z * Z) : cell_result :=
 
 Definition cache := (Z * Z * Z * Z)%type.  (* columns, lines, cell width, cell height *)
 
+(** utils.py:428-473 without the query: [resp] is the response to the XTWINOPS query
+    (used only when [cell_query_needed]) *)
+Definition cache_hit (cfg : config) (c : cache) : bool :=
+  match c with (c0, c1, _, _) => (ws_cols cfg =? c0) && (ws_rows cfg =? c1) end.   (* :429 *)
+Definition ioctl_area (cfg : config) : Z * Z :=
+  if ioctl_ok cfg then (ws_xpix cfg, ws_ypix cfg) else (0, 0).                     (* :434-441 *)
+Definition ioctl_got (cfg : config) : bool := ioctl_ok cfg && negb (has_zero (ioctl_area cfg)).
+Definition cell_query_needed (cfg : config) (c : cache) : bool :=
+  negb (cache_hit cfg c) && negb (ioctl_got cfg).                                   (* :443 *)
+
+Definition cell_of_response (cfg : config) (c : cache) (resp : option (list byte))
+  : cell_result * cache :=
+  match c with
+  | (c0, c1, cw, ch) =>
+  let cols := ws_cols cfg in
+  let rows := ws_rows cfg in
+  if cache_hit cfg c then (cell_ret (cw, ch), c)                            (* :429-431 *)
+  else
+    let tas0 := ioctl_area cfg in
+    let '(cell, tas, got) :=
+      if ioctl_got cfg then ((0, 0), tas0, true)
+      else
+        match resp with
+        | Some ((_ :: _) as r) =>
+            match parse_xtwinops 54 r with                                  (* :453-454 *)
+            | Some (h, w) => ((w, h), tas0, false)
+            | None =>
+                match parse_xtwinops 52 r with                              (* :455-464 *)
+                | Some (h, w) => ((0, 0), (if termux cfg then (w, h * 2) else (w, h)), true)
+                | None => ((0, 0), tas0, false)
+                end
+            end
+        | _ => ((0, 0), tas0, false)
+        end in
+    if got then                                                             (* :466-469 *)
+      let tas' := if swap cfg then (snd tas, fst tas) else tas in
+      if (cols =? 0) || (rows =? 0) then (CsRaise, c)       (* ZeroDivisionError *)
+      else
+        let cell' := (fst tas' / cols, snd tas' / rows) in
+        (cell_ret cell', (cols, rows, fst cell', snd cell'))                (* :471-473 *)
+    else (cell_ret cell, (cols, rows, fst cell, snd cell))
+  end.
+
 Section IO.
 Variable cost : nat -> Z.
 Variable cfg : config.
@@ -568,40 +611,12 @@ Definition get_name_version (st : tty) : (option (list byte) * option (list byte
 
 (** utils.py:403-473 *)
 Definition get_cell_size (c : cache) (st : tty) : cell_result * cache * tty :=
-  match c with
-  | (c0, c1, cw, ch) =>
-  let cols := ws_cols cfg in
-  let rows := ws_rows cfg in
-  if (cols =? c0) && (rows =? c1) then (cell_ret (cw, ch), c, st)          (* :429-431 *)
-  else
-    let tas0 := if ioctl_ok cfg then (ws_xpix cfg, ws_ypix cfg) else (0, 0) in
-    let got0 := ioctl_ok cfg && negb (has_zero tas0) in                     (* :434-441 *)
-    let '(cell, tas, got, st1) :=
-      if got0 then ((0, 0), tas0, true, st)
-      else
-        let (resp, st1) :=
-            query cost cfg term more_not_c
-                  (CELL_SIZE_PX_q ++ TEXT_AREA_SIZE_PX_q ++ DA1_q) st in    (* :447-450 *)
-        match resp with
-        | Some ((_ :: _) as r) =>
-            match parse_xtwinops 54 r with                                  (* :453-454 *)
-            | Some (h, w) => ((w, h), tas0, false, st1)
-            | None =>
-                match parse_xtwinops 52 r with                              (* :455-464 *)
-                | Some (h, w) => ((0, 0), (if termux cfg then (w, h * 2) else (w, h)), true, st1)
-                | None => ((0, 0), tas0, false, st1)
-                end
-            end
-        | _ => ((0, 0), tas0, false, st1)
-        end in
-    if got then                                                             (* :466-469 *)
-      let tas' := if swap cfg then (snd tas, fst tas) else tas in
-      if (cols =? 0) || (rows =? 0) then (CsRaise, c, st1)   (* ZeroDivisionError *)
-      else
-        let cell' := (fst tas' / cols, snd tas' / rows) in
-        (cell_ret cell', (cols, rows, fst cell', snd cell'), st1)           (* :471-473 *)
-    else (cell_ret cell, (cols, rows, fst cell, snd cell), st1)
-  end.
+  if cell_query_needed cfg c then
+    let (resp, st1) :=
+        query cost cfg term more_not_c
+              (CELL_SIZE_PX_q ++ TEXT_AREA_SIZE_PX_q ++ DA1_q) st in        (* :447-450 *)
+    (cell_of_response cfg c resp, st1)
+  else (cell_of_response cfg c None, st).
 
 (** @cached get_terminal_name_version: [nv] is the memo *)
 Definition nv_memo := option (option (list byte) * option (list byte)).
